@@ -204,6 +204,9 @@ fn copath_case<const K: u32>() {
     kani::cover!(true);
 }
 
+// Unwind >= 36 everywhere: a walk that fails to stop at the root climbs one level per iteration and hits the
+// shift-overflow check after at most 32 steps, which (unlike an unwinding-assertion failure) comes with a
+// replayable counterexample.
 macro_rules! copath_harness {
     ($name:ident, $k:expr, $unwind:expr) => {
         #[kani::proof]
@@ -213,17 +216,17 @@ macro_rules! copath_harness {
         }
     };
 }
-copath_harness!(c20_direct_copath_k0, 0, 3);
-copath_harness!(c20_direct_copath_k1, 1, 4);
-copath_harness!(c20_direct_copath_k2, 2, 5);
-copath_harness!(c20_direct_copath_k3, 3, 6);
-copath_harness!(c20_direct_copath_k4, 4, 7);
-copath_harness!(c20_direct_copath_k5, 5, 8);
-copath_harness!(c20_direct_copath_k6, 6, 9);
-copath_harness!(c20_direct_copath_k7, 7, 10);
-copath_harness!(c20_direct_copath_k8, 8, 11);
-copath_harness!(c20_direct_copath_k12, 12, 15);
-copath_harness!(c20_direct_copath_k24, 24, 27);
+copath_harness!(c20_direct_copath_k0, 0, 36);
+copath_harness!(c20_direct_copath_k1, 1, 36);
+copath_harness!(c20_direct_copath_k2, 2, 36);
+copath_harness!(c20_direct_copath_k3, 3, 36);
+copath_harness!(c20_direct_copath_k4, 4, 36);
+copath_harness!(c20_direct_copath_k5, 5, 36);
+copath_harness!(c20_direct_copath_k6, 6, 36);
+copath_harness!(c20_direct_copath_k7, 7, 36);
+copath_harness!(c20_direct_copath_k8, 8, 36);
+copath_harness!(c20_direct_copath_k12, 12, 36);
+copath_harness!(c20_direct_copath_k24, 24, 36);
 
 /// BFS top-down order: levels from the root down, left to right inside a level, every node once.
 fn bfs_case<const K: u32>() {
